@@ -439,7 +439,7 @@ def plan(run, rng, stores):
         mags = ["small", "negwide", "wide", "mixed"]
         for i, sub in enumerate(subsets):
             for j, n in enumerate(sizes if i < 2 else ([rng.choice(sizes[:6])] if not run.thorough() else rng.sample(sizes, min(3, len(sizes))))):
-                for mag in (mags if (i < 2 and j in (0, len(sizes) - 1)) else [mags[(i + j) % 4]]):
+                for mag in (mags if (i < 2 and j in (0, len(sizes) - 1)) else [rng.choice(mags)]):
                     if fmt == "pdb" and mag == "wide" and n > 300:
                         continue
                     tasks.append((fmt, n, sub, mag, rng.randint(0, 10**9), stores))
